@@ -140,6 +140,9 @@ func strFormat(L *LState) int {
 		args[i-2] = L.Get(i)
 	}
 	npat := strings.Count(str, "%") - 2*strings.Count(str, "%%")
+	if npat > len(args) {
+		L.ArgError(top+1, "no value")
+	}
 	L.Push(LString(fmt.Sprintf(str, args[:intMin(npat, len(args))]...)))
 	return 1
 }
